@@ -64,7 +64,7 @@ type TAEvent struct {
 // Fault describes an injected failure.
 type Fault struct {
 	JobKey string // job to fail (first attempt only unless Repeat)
-	Kind   string // errors assert exit badouts missingkey wrongtype badstagedefs
+	Kind   string // errors assert exit badouts nullouts missingkey wrongtype badstagedefs
 	Repeat bool
 	used   int
 }
@@ -605,6 +605,10 @@ func (r *TARun) runStage(job *TAJob, fault string) ([]byte, error) {
 		if len(b) == 0 {
 			b = []byte("{")
 		}
+	}
+	if fault == "nullouts" {
+		// valid JSON, but not an object: the stage code returned nothing
+		b = []byte("null")
 	}
 	return b, os.WriteFile(path.Join(job.MetadataPath, target), b, 0o644)
 }
